@@ -100,6 +100,25 @@ def gen_cases(rng, tier):
         dd = [[i, j, rng.choice([1, -1])] for i in range(norb) for j in range(i) if rng.random() < 0.4]
         cases.append({'kind': 'fqe', 'norb': norb, 'na': na, 'nb': nb, 'h1': h1, 'U': U, 'dd': dd, 'nroots': 2,
                       'seed': rng.randrange(10 ** 6)})
+    # a completely filled spin channel next to a partly filled one (one string of that spin: kernels that special-case
+    # "a single string" must still see the mean field of the filled shell), interacting Hamiltonians
+    # (6 orbitals, 15-20 determinants, diagonally dominant one-body part: the solver's subspace is capped at half the
+    # sector dimension, smaller or less structured problems end in ConvergenceError, which says nothing); plus one tiny
+    # sector (dimension 1 or 6) per run, where the only requirement is "exact value or ConvergenceError"
+    for k in range(3 if tier == 'quick' else 10):
+        norb = 6
+        na, nb = [(norb, 3), (3, norb), (norb, 4), (4, norb), (norb, 2)][k % 5]
+        if k == 2:
+            norb = 4
+            na, nb = rng.choice([(4, 4), (4, 0), (4, 2), (0, 0)])
+        h1 = [[0] * norb for _ in range(norb)]
+        for i in range(norb):
+            h1[i][i] = rng.randint(-1, 1) + 3 * i
+            for j in range(i):
+                h1[i][j] = h1[j][i] = rng.choice([0, 1, -1])
+        dd = [[i, j, rng.choice([1, -1])] for i in range(norb) for j in range(i) if rng.random() < 0.3]
+        cases.append({'kind': 'fqe', 'norb': norb, 'na': na, 'nb': nb, 'h1': h1, 'U': 2, 'dd': dd, 'nroots': 1,
+                      'seed': rng.randrange(10 ** 6)})
     # a field scan: Hamiltonians H(s) = (h1 + s V, h2) built one after the other from the SAME two-body array object, each
     # solved in turn in one process (what a user scanning a one-body field does); every solve is certified separately
     # against the matrix of a freshly built H(s)
@@ -267,6 +286,33 @@ def certify(model, H, lam, prev, delta):
     return ok, ('checker rejected the certificate' if not ok else 'ok')
 
 
+def _model_matrix(model, norb, na, nb, h1, U, dd):
+    """the sector matrix of H = sum h1 E + U sum n_up n_dn + sum v n_i n_j (as run_impl builds it) from the extracted
+    Fock-space model, exactly: 2 H has integer tensors"""
+    import numpy
+    import fqeio
+    from props import c01
+    ents = [[[i, j], 2 * h1[i][j], 0] for i in range(norb) for j in range(norb) if h1[i][j]]
+    h2 = {}
+    for i in range(norb):
+        h2[(i, i, i, i)] = h2.get((i, i, i, i), 0) - U
+    for i, j, v in dd:
+        for p, q in ((i, j), (j, i)):
+            h2[(p, q, p, q)] = h2.get((p, q, p, q), 0) - v
+    ents += [[list(ix), v, 0] for ix, v in sorted(h2.items()) if v]
+    ham = {'cls': 'restricted', 'rank': 2, 'entries': ents, 'e0': [0, 0], 'real': True}
+    keys = [(na + nb, na - nb)]
+    basis = fqeio.basis_of(norb, keys)
+    dim = len(basis)
+    H = numpy.zeros((dim, dim))
+    index = {'%d,%d' % ab: k for k, ab in enumerate(basis)}
+    for k, (a, b) in enumerate(basis):
+        e = c01.expected(model, {'norb': norb, 'mode': 'ns', 'n': na + nb, 'sz': na - nb, 'vec': [[a, b, 1, 0]], 'ham': ham})
+        for key, (re, im) in e['out'].items():
+            H[index[key], k] = re / 2.0
+    return H
+
+
 def compare(case, got, exp, mode):
     import numpy
     if 'exc' in got or 'crash' in got:
@@ -274,13 +320,23 @@ def compare(case, got, exp, mode):
     if case.get('kind') == 'fqe_scan':
         bad = []
         for sv, st in zip(case['svals'], got['steps']):
-            bad += ['scan step s=%s (same two-body array as the previous steps): %s' % (sv, b) for b in compare({'kind': 'fqe'}, st, exp, mode)]
+            h1s = [[case['h1'][i][j] + sv * case['V'][i][j] for j in range(case['norb'])] for i in range(case['norb'])]
+            sub = {'kind': 'fqe', 'norb': case['norb'], 'na': case['na'], 'nb': case['nb'], 'h1': h1s, 'U': case['U'], 'dd': case['dd']}
+            bad += ['scan step s=%s (same two-body array as the previous steps): %s' % (sv, b) for b in compare(sub, st, exp, mode)]
         return bad
     if 'convergence_error' in got:
         return []          # permitted outcome
     bad = []
     model = _MODEL['m']
     Hc = numpy.array([[complex(*c) for c in row] for row in got['H']])
+    if case.get('kind') == 'fqe' and 'U' in case and 'h1' in case:
+        # the matrix the eigenpairs are judged by comes from the MODEL, not from the implementation's own apply
+        Hx = _model_matrix(model, case['norb'], case['na'], case['nb'], case['h1'], case['U'], case['dd'])
+        if Hx.shape != Hc.shape or float(numpy.abs(Hx - Hc).max()) > 1e-9:
+            bad.append('matrix of H assembled through apply differs from the exact one by %.3g (sector n_alpha=%d, n_beta=%d of %d orbitals)'
+                       % (float(numpy.abs(Hx - Hc).max()) if Hx.shape == Hc.shape else -1, case['na'], case['nb'], case['norb']))
+        if Hx.shape == Hc.shape:
+            Hc = Hx.astype(complex)
     if numpy.abs(Hc - Hc.conj().T).max() > 1e-12:
         return ['matrix under test is not Hermitian (harness)']
     cplx = numpy.abs(Hc.imag).max() > 0
